@@ -212,6 +212,13 @@ class StmtMixin:
         c = self.truth(self.ev(st.test, env))
         if not self.path.branch(c):
             raise self.E.Raised("AssertionError", st)
+        # `assert isinstance(x, C)` also refines the static class used for method dispatch
+        t = st.test
+        if isinstance(t, ast.Call) and isinstance(t.func, ast.Name) and t.func.id == "isinstance" and isinstance(t.args[0], ast.Name) \
+                and isinstance(t.args[1], ast.Name):
+            v = env.lookup(t.args[0].id)
+            if isinstance(v, VRef):
+                env.assign(t.args[0].id, VRef(v.t, t.args[1].id))
 
     def st_Raise(self, st, env):
         if st.exc is None:
@@ -570,6 +577,12 @@ class StmtMixin:
                 jv = self.path.fresh(var, z3.IntSort())
                 e2 = self.E.Env(parent=cenv)
                 e2.vars[var] = VInt(jv)
+                # our own quantified preconditions hold at this arbitrary point as well
+                me = self.ctx.contract
+                for myvar, mycl in me.requires_forall:
+                    e3 = self.E.Env(parent=self.entry_env)
+                    e3.vars[myvar] = VInt(jv)
+                    self.path.assume(sub.truth(sub.ev(ast.parse(mycl, mode="eval").body, e3)), check=False)
                 t = sub.truth(sub.ev(ast.parse(cl, mode="eval").body, e2))
                 self.ctx.oblige(self.path, "pre@callsite", f"{c.name}: forall {var}. {cl} @L{getattr(node, 'lineno', 0)}", t, node)
         ca = self.site_asserts(c.qualname, node) + self.site_asserts(c.name, node) if c.name != c.qualname else self.site_asserts(c.name, node)
